@@ -285,9 +285,24 @@ class Gen:
             # an ordinary rule used as a mixin
             order.append(('rule', ('rule', [[('class', '.plain')]], [self.decl([]), ('rule', [[('class', '.in')]], [self.decl([])], {'sp_brace': True})], {'sp_brace': True})))
             order.append(('rule', ('rule', self.selectors(False), [('call', '.plain', None, ','), self.decl([])], {'sp_brace': True})))
+        if r.random() < 0.35:
+            # arguments that are variables named like the callee's parameters: a wrapper forwarding its parameters swapped,
+            # and a caller whose block-local variables carry those names
+            order.append(('def', {'name': '.pair', 'params': [('@a', None), ('@b', None)],
+                                  'body': [('decl', 'margin', [('var', '@a'), ('sp',), ('var', '@b')], False), ('decl', 'top', [('var', '@b')], False)]}))
+            order.append(('def', {'name': '.flip', 'params': [('@a', None), ('@b', None)], 'body': [('call', '.pair', [[('var', '@b')], [('var', '@a')]], r.choice([',', ';']))]}))
+            order.append(('rule', ('rule', [[('class', '.sw%d' % r.randrange(9))]], [('call', '.flip', [[('num', '1px')], [('num', '2px')]], ',')], {'sp_brace': True})))
+            order.append(('rule', ('rule', [[('class', '.loc%d' % r.randrange(9))]],
+                                   [('var', '@a', [('num', '7px')]), ('var', '@b', [('num', '8px')]), ('call', '.pair', [[('var', '@b')], [('var', '@a')]], ';')], {'sp_brace': True})))
         r.shuffle(order)
         for kind, x in order:
-            units.append(('mixin', x['name'], x['params'], x['body']) if kind == 'def' else x)
+            if kind == 'def':
+                if r.random() < 0.25 and x['params'] and x['name'].startswith('.mx'):
+                    # an empty-bodied definition of the same name declared first: it yields nothing, the next one applies
+                    units.append(('mixin', x['name'], [(x['params'][0][0], None)], []))
+                units.append(('mixin', x['name'], x['params'], x['body']))
+            else:
+                units.append(x)
         return units
 
     def decl_using(self, pnames):
